@@ -45,11 +45,11 @@ theorem propFun_congr (B B' : Bnds) (ctx : Ctx) (f : Fun) (hfr : f.inFrag = true
 
 /-- **covering contexts by construction**: the contexts `convert` stores satisfy `CtxCovers` and `ObjCovers` -/
 theorem convert_covers (m : NLModel) (cfg : Cfg) (hck_wf : WF m.n0 (convert m cfg).defs)
-    (htyped : ∀ d ∈ (convert m cfg).defs, typedDef (convert m cfg).B d = true)
-    (hB : ∀ d ∈ (convert m cfg).defs, ∀ v ∈ d.f.vars, (convert m cfg).B v = (flatAll m).S.B v)
+    (htyped : ∀ d ∈ (convert m cfg).defs, typedDef (convert m cfg).B0 d = true)
+    (hB : ∀ d ∈ (convert m cfg).defs, ∀ v ∈ d.f.vars, (convert m cfg).B0 v = (flatAll m).S.B v)
     (hq : ∀ o, (convert m cfg).obj = some o → o.quad = []) :
-    CtxCovers (convert m cfg).B (convert m cfg).defs (convert m cfg).roots ∧
-    (∀ o, (convert m cfg).obj = some o → ObjCovers (convert m cfg).B (convert m cfg).defs o) := by
+    CtxCovers (convert m cfg).B0 (convert m cfg).defs (convert m cfg).roots ∧
+    (∀ o, (convert m cfg).obj = some o → ObjCovers (convert m cfg).B0 (convert m cfg).defs o) := by
   -- notation
   have hdefs : (convert m cfg).defs = (assignCtx (flatAll m).S.B (flatAll m).S.defs.reverse
       (addUses (fun _ => .none) (rootUses ((flatAll m).croots ++ (flatAll m).lroots) (flatAll m).obj))).reverse := rfl
@@ -84,7 +84,7 @@ theorem convert_covers (m : NLModel) (cfg : Cfg) (hck_wf : WF m.n0 (convert m cf
     have hfr : d.f.inFrag = true := by
       have := htyped d hd; rw [typedDef_eq] at this
       simp only [Bool.and_eq_true] at this; exact this.1.2
-    rw [propFun_congr (flatAll m).S.B (convert m cfg).B d.ctx.eff d.f hfr (hB d hd)] at hp
+    rw [propFun_congr (flatAll m).S.B (convert m cfg).B0 d.ctx.eff d.f hfr (hB d hd)] at hp
     rcases assignCtx_covers _ _ _ hrev d hdR p hp with ⟨d'', hd'', hr'', hle⟩ | hnd
     · have hd''m : d'' ∈ (convert m cfg).defs := by rw [hdefs]; exact List.mem_reverse.mpr hd''
       rw [← hr'', ctxOf_mem m.n0 _ hck_wf d'' hd''m]
@@ -112,7 +112,8 @@ theorem checked_of_vok (m : NLModel) (cfg : Cfg) (hv : m.vok = true) (hs : (conv
     Nat.lt_trans (wf_vars_lt _ _ st.wf d hd v hv') (st.resN d hd)
   obtain ⟨hcov, hocov⟩ := convert_covers m cfg st.wf st.typed (fun d hd v hv' => st.bAgree v (hvars d hd v hv'))
     (fun o ho => (st.objIdx o ho).1)
-  simp only [ConvOut.checksSem, List.all_eq_true] at hs
+  simp only [ConvOut.checksSem, Bool.and_eq_true, List.all_eq_true] at hs
+  obtain ⟨hs, _⟩ := hs
   refine ⟨st.wf, st.n0N, st.resN, st.defd, st.b0, st.typed, st.rootsN, ?_, hcov, ?_⟩
   · intro r hr
     have := hs r hr
